@@ -38,6 +38,9 @@ pub enum Cmd {
     /// including the user the session is bound to, untouched
     UseDbOtherFormWrong { db: String },
     Data { word: String, key: String },
+    /// `use-db <db> <the database's token>` whatever form the session used before (a user session that knows the
+    /// database token becomes a token session)
+    UseDbTokenForm { db: String },
     Keys { pattern: String },
     UnwatchAll,
     Arbiter,
@@ -107,6 +110,7 @@ fn cmd_strategy() -> impl Strategy<Value = Cmd> {
         2 => (select(vec!["d", "d", "e"]), 0..5u8).prop_map(|(db, v)| Cmd::UseDbNearMiss { db: db.to_string(), v }),
         4 => (select(vec!["d", "d", "e", "nosuch"]), prop::bool::weighted(0.7)).prop_map(|(db, right)| Cmd::UseDb { db: db.to_string(), right }),
         2 => select(vec!["d", "d", "e", "nosuch"]).prop_map(|db| Cmd::UseDbOtherFormWrong { db: db.to_string() }),
+        2 => select(vec!["d", "e"]).prop_map(|db| Cmd::UseDbTokenForm { db: db.to_string() }),
         10 => (select(vec!["get", "get-safe", "set", "set-safe", "remove", "increment", "watch", "unwatch"]), key.clone()).prop_map(|(w, key)| Cmd::Data { word: w.to_string(), key }),
         1 => select(vec!["*", "a*", ""]).prop_map(|p| Cmd::Keys { pattern: p.to_string() }),
         1 => Just(Cmd::UnwatchAll),
@@ -214,6 +218,7 @@ fn render(kind: &Kind, cmd: &Cmd) -> String {
             }
         }
         Cmd::UseDb { db, right } => format!("use-db {} {}", db, token_for(kind, db, *right)),
+        Cmd::UseDbTokenForm { db } => format!("use-db {} {}", db, if db == "d" { "dtok" } else { "etok" }),
         Cmd::UseDbOtherFormWrong { db } => match kind {
             Kind::UserBob | Kind::UserAll => format!("use-db {} not-the-token", db),
             _ => format!("use-db {} bob not-bobs-token", db),
@@ -367,6 +372,7 @@ fn step(w: &mut World, kinds: &[Kind], st: &Step, flags: &mut Flags) -> Option<(
                 Cmd::AuthOk | Cmd::AuthWrong => Expect::Accept,
                 Cmd::AuthNearMiss { .. } => Expect::Either,
                 Cmd::UseDbOtherFormWrong { .. } | Cmd::UseDbNearMiss { .. } => Expect::Refuse,
+                Cmd::UseDbTokenForm { .. } => Expect::Accept,
                 Cmd::UseDb { db, right } => {
                     let exists = db == "d" || db == "e";
                     let user_exists_there = match kind {
@@ -526,6 +532,9 @@ fn step(w: &mut World, kinds: &[Kind], st: &Step, flags: &mut Flags) -> Option<(
                     }
                     match cmd {
                         Cmd::AuthOk => w.msessions[*s].auth = true,
+                        Cmd::UseDbTokenForm { db } => {
+                            w.msessions[*s].sel = Some((db.clone(), None));
+                        }
                         Cmd::UseDb { db, .. } => {
                             let user = match kind {
                                 Kind::UserBob => Some("bob".to_string()),
